@@ -14,7 +14,7 @@ from . import deckprop
 PROP = 'C15'
 FUNCTIONS = ['MIP.mip.cellcard.split (re_likebut)', 'MIP.geom.parsegeom.get_ast (like)', 'ParseMCNPCell.parse_one_cell / apply_but / '
              'parse_one_cell_worker / parse_keywords (mat rho u fill trcl imp) / parse_trcl_kw / parse_fill_kw', 'pipeline of C05']
-SCEN = ['level0', 'chain', 'universe', 'fill', 'u']
+SCEN = ['level0', 'chain', 'universe', 'fill', 'u', 'u0']
 
 
 def make(task):
@@ -30,7 +30,7 @@ def worker(task):
 
 def tasks_for(tier):
     base = seed() * 49979687
-    nd = 40 if tier == 'quick' else 2000
+    nd = 72 if tier == 'quick' else 2400
     return [(base + i, SCEN[i % len(SCEN)]) for i in range(nd)]
 
 
